@@ -1,26 +1,135 @@
 #!/usr/bin/env python3
-"""Regenerates /verif/MANIFEST.json from the table below (kept in one place so the
-level claims follow what the checks actually discharge)."""
-import json, os
+"""Regenerates /verif/MANIFEST.json from the table below (kept in one place so the level
+claims follow what the checks actually discharge)."""
+import json
+import os
+
 HERE = os.path.dirname(os.path.dirname(os.path.abspath(__file__)))
 
-TECH = ("contract-based deductive verification: sidecar contracts on the real functions, VCs "
-        "generated from /repo's AST by pyvc and discharged by z3/cvc5; bounded run-time "
-        "contract checking as labelled stand-in")
+TECH = ("contract-based deductive verification: sidecar contracts (pre/post, loop invariants, ghost "
+        "executor, frames, lemmas) on the real functions; VCs generated from /repo's AST by pyvc on "
+        "every run and discharged by z3 (cvc5 on unknowns); bounded run-time contract checking on "
+        "finite boxes as labelled stand-in for functions outside the VC engine's reach")
 
-# property -> (category, text, note, design_ref)
+NOTE = ("Trusted: pyvc VC generator + sidecar contracts/ghost executor + z3/cvc5 + CPython ast + the "
+        "induction principle for the spec-function lemmas; Python ints are mathematical (exact); "
+        "assumed contract of allocate_snapshots (singledispatch closures) and CPython's generator "
+        "protocol. pyvc is itself checked on every thorough run by a CPython cross-check (concrete "
+        "execution of the iterators by the engine vs the real streams) and a 20-mutant self-test. "
+        "Bounded clauses hold only inside their stated box and are never counted as discharged.")
+
+VC_CLASSES = ("SingleMemory/SingleDisk/None, Multistage, TwoLevel (symbolic period) and Mixed iterators")
+REV = ("For the Revolve family (Revolve, DiskRevolve, PeriodicDiskRevolve, HRevolve) the stream is a "
+       "conversion of a recursively built operation sequence; its clauses are decided by the bounded "
+       "layer (reference executor on the real classes, all tuples of the box, 16 cost vectors).")
+
 P = {}
-def add(pid, cat, text, note, ref="8"):
-    P[pid] = (cat, text, note, ref)
 
-NOTE = ("Trusted: pyvc VC generator + sidecar contracts + z3/cvc5 + CPython ast; Python ints "
-        "mathematical (exact). Bounded clauses hold only inside their stated box.")
-for pid in ["C%02d" % i for i in range(1, 20)]:
-    add(pid, "other",
-        "Bounded stand-in only at this commit: run-time checking of the section-5 reference "
-        "executor / spec-function contracts on the real classes over the finite box stated in the "
-        "evidence; the VC layer for this property is being built (see DESIGN.md section 8).",
-        NOTE)
+
+def add(pid, cat, text, ref="8"):
+    P[pid] = (cat, text, NOTE, ref)
+
+
+add("C01", "other",
+    "Every emit-precondition of the section-5 reference executor tagged C01 (forward starts at the "
+    "forward state, checkpoint present in the named storage and covering the steps to recompute, "
+    "dependencies in WORK at every Reverse, no overwrite) is a discharged VC at every yield of the "
+    + VC_CLASSES + ", for symbolic step count / finalisation point, unit counts, label tuple, period, "
+    "trajectory and every adjoint pass (loop invariants, no bound); every `raise` of those iterators is "
+    "proved unreachable (Mixed: safety on guard-passing paths). " + REV)
+add("C02", "other",
+    "Ghost adjoint counter/phase: Reverse starts at the adjoint position and covers it contiguously, "
+    "EndForward exactly once with the forward complete, no Copy/Move/Reverse before it, EndReverse only "
+    "with all steps reversed, nothing after the final action - discharged VCs at every yield of the "
+    + VC_CLASSES + ". " + REV)
+add("C03", "other",
+    "Budget obligations after every write yield: Multistage RAM/DISK prefix counts <= declared counts "
+    "(CNT spec function with inductively proved lemmas, __init__ contract incl. the assumed "
+    "allocate_snapshots contract), Mixed <= snapshots in the chosen storage only, TwoLevel <= "
+    "binomial_snapshots extra + one disk checkpoint per started period, single-storage schedules "
+    "nothing outside their storage; 'never both kinds' at every Forward. " + REV)
+add("C04", "other",
+    "store == empty at the final EndReverse (SingleDisk move, Multistage, Mixed) and store == store at "
+    "EndForward at every EndReverse of the multi-pass classes (SingleMemory, SingleDisk copy, TwoLevel: "
+    "periodic checkpoints only ever copied) are discharged VCs from the coupling invariants. " + REV)
+add("C05", "other",
+    "Proved (VC): n_advance range/endpoint contract incl. termination; argmin returns the last "
+    "minimiser. The optimality claim itself (stream steps == Griewank-Walther optimum) is decided by "
+    "the bounded layer: T_adv bridge on the real n_advance for all n<=400 (quick) / 3000 (thorough), all "
+    "unit counts, both trajectories, against the closed form; Multistage/Revolve stream steps and "
+    "optimal_steps_binomial on the box. That no executable schedule does better is GW2000 (assumed).")
+add("C06", "other",
+    "Proved (VC): shape contract of mixed_step_memoization (never FORWARD, lengths in range), Mixed "
+    "constructor domain (raises exactly outside the documented domain). Stream steps == mixed optimum "
+    "and independence of the storage: bounded (all n<=60 / 200, all s, both storages) against an "
+    "independent recurrence; optimality of the recurrence is Maddison 2024 (assumed).")
+add("C07", "other",
+    "Proved (VC): argmin (last index attaining the minimum, for every list), revolver_parameters "
+    "(cost roles reach the parameter dictionary unswapped). Cost equalities and the monotonicity "
+    "relations: bounded - stream cost counted by the reference executor vs exact-rational "
+    "recurrences for n<=16, 16 cost vectors incl. uf!=ub, wd!=rd, zeros. Optimality of the recurrences "
+    "is the cited theorems (assumed).")
+add("C08", "other",
+    "schedule.n == executor forward position, schedule.r == executor adjoint counter (reset at "
+    "EndReverse iff another pass is permitted), max_n None or the true step count: discharged VCs at "
+    "every yield of the " + VC_CLASSES + "; observer properties n/r/max_n return the fields. " + REV)
+add("C09", "other",
+    "Pass structure from the loop contracts (pass-loop head invariant re-established => further passes "
+    "are executable repeats; single-pass classes end with the generator), is_exhausted evaluated "
+    "through its contract at every yield (False while actions remain, True at the final action), "
+    "is_running <=> generator created and the wrapper returns the same generator on every call: "
+    "discharged VCs. " + REV + " StopIteration persistence is CPython's generator protocol (assumed).")
+add("C10", "proof",
+    "finalize() is straight-line: its complete accept/reject table (n<1 ValueError; max_n unknown: "
+    "accept iff schedule.n >= n, then n = max_n = n; max_n known: no-op iff n == max_n == schedule.n; "
+    "everything else RuntimeError; a rejected call assigns nothing) is discharged for all integers; "
+    "lemma: every finalize on a fresh object is rejected; at every Forward yield of the online classes "
+    "schedule.n equals the n1 the client was told (so 'accepted iff told to advance at least to n') and "
+    "the finalisation at the true end is accepted, after which the only continuation is EndForward. "
+    "The bounded layer additionally compares 3000/50000 seeded next()/finalize(k) histories with the table.")
+add("C11", "other",
+    "At every yield of the VC classes that names RAM or DISK the obligation uses_storage_type(storage) "
+    "is True is discharged (Multistage via the CNT 'positive' lemma); every uses_storage_type is proved "
+    "total on all four members (Revolve family: exact table incl. snapshots_on_disk None). That the "
+    "Revolve-family streams touch DISK only when the table says so is bounded.")
+add("C12", "other",
+    "Loads only with empty WORK, adjoint dependencies written to WORK only for the step before the "
+    "adjoint position, no Forward beyond the adjoint position, at most one step of dependencies (all "
+    "kept for SingleMemory): discharged VCs at every yield of the " + VC_CLASSES + ". " + REV)
+add("C13", "other",
+    "Proved (VC, symbolic period): the forward sweep emits exactly Forward(k*period,(k+1)*period, "
+    "restart checkpoint to DISK), extra checkpoints go only to the binomial storage, at most "
+    "binomial_snapshots of them, periodic checkpoints are only copied. The per-block step count == "
+    "binomial optimum is bounded (period 1..9, b<=4, both storages/trajectories, N<=40/120, 3 passes).")
+add("C14", "other",
+    "Proved (VC): the unit total depends on ram+disk only, at most the declared number of units is "
+    "labelled RAM (CNT lemmas), every stack position keeps the storage self._storage[position] at every "
+    "write and load. Minimal DISK traffic (allocate_snapshots) and stream equality across splits: "
+    "bounded (all n<=24/60, all splits of s<=12, both trajectories).")
+add("C15", "other",
+    "Proved (VC): frame clauses - observers assign nothing, finalize assigns only n/max_n, the iterators "
+    "assign only their declared fields, the generator wrapper caches one generator per object. "
+    "Independence from other schedules in the process (module-level caches): bounded - seeded "
+    "interleaved histories vs a fresh interpreter.")
+add("C16", "other",
+    "Proved (VC): shape contract of the memoised planner. Cell-by-cell equality of "
+    "mixed_steps_tabulation, mixed_step_memoization and the independent spec, and stream equality with "
+    "the tabulated path forced: bounded (n<=120/400; numba itself is not installed).")
+add("C17", "other",
+    "Constructor contracts (raise exactly outside the documented domain) and totality of the "
+    "iterators of the VC classes (every raise unreachable, implicit exceptions excluded, loops "
+    "terminate by decreases clauses) are discharged VCs; Mixed totality and the Revolve family are "
+    "bounded on the box n in 0..7/12, units 0..n+2, all storages, period 0..4.")
+add("C18", "other",
+    "Well-formedness of every emitted action at every yield of the VC classes, __eq__ (never raises, "
+    "equal iff same kind and args), Forward/Reverse __len__/__contains__: discharged VCs. repr/eval "
+    "round trip, iteration order and Revolve-family actions: bounded (strings and yield-from are "
+    "outside the encoding).")
+add("C19", "other",
+    "Bounded only at this commit for the stream clauses (positions of DISK writes/loads vs the closed "
+    "form with math.comb, per-segment Revolve optimum, all n<=60/200, RAM units 1..4, 16 cost vectors); "
+    "VC: revolver_parameters fixes one_read_disk/mx/fast, argmin.")
+
 
 def main():
     checks = []
@@ -43,7 +152,8 @@ def main():
         "hooks": {"guard": "CHECKPOINT_SCHEDULES_VERIF",
                   "enable": "none needed: contracts are sidecar files under /verif/contracts; the "
                             "repository is read as source text (pyvc) and imported unmodified (rtc)",
-                  "baseline_off_cmd": "cd /repo && /venv/bin/python -m pytest -ra -q -p no:cacheprovider --timeout=900 --continue-on-collection-errors",
+                  "baseline_off_cmd": "cd /repo && /venv/bin/python -m pytest -ra -q -p no:cacheprovider "
+                                      "--timeout=900 --continue-on-collection-errors",
                   "source_commits": [], "add_only": True},
         "engines": [
             {"name": "pyvc", "path": "pyvc/", "serves_properties": sorted(P),
@@ -52,10 +162,13 @@ def main():
              "kind_free_text": "run-time contract monitor on finite boxes (bounded stand-in)"}],
         "checks": checks,
         "not_applicable": [],
-        "notes": "See DESIGN.md. Exit codes: 0 held, 1 violation, 2 undecided, 3 checker broken.",
+        "notes": "See DESIGN.md. Exit codes: 0 held, 1 violation, 2 undecided, 3 checker broken. "
+                 "./check selftest (mutation self-test) and python3-vt -m pyvc.crosscheck (CPython "
+                 "cross-check) validate the VC engine itself.",
     }
     with open(os.path.join(HERE, "MANIFEST.json"), "w") as f:
         json.dump(m, f, indent=1)
+
 
 if __name__ == "__main__":
     main()
